@@ -43,7 +43,28 @@ THOROUGH = CONFIGS + [
 ]
 
 
+REFINE = {'quick': ('claim', 'vec_close'), 'thorough': ('claim', 'nested', 'close', 'cancel', 'vec_contend', 'vec_close')}
+NO_INTERRUPT = ('contend', 'claim', 'nested', 'change', 'vec_contend', 'vec_change')
+
+
+def refinement(check):
+    """design level: USim refines the abstract ledger ResAbs (TLC: every step of the detailed model that touches the
+    level of supply 1 or what is owed to it is a Take / Give / Change / Forfeit; no Forfeit on configurations without
+    interrupts; level + owed constant where the supply is not changed); Apalache proves NonNegative inductive; TLC
+    checks that the quantifier-free step relation used here equals the one with named amounts (ResAbsEq)"""
+    import core
+    for label, consts, inv in THOROUGH:
+        if label not in REFINE[check.tier]:
+            continue
+        props = ['ResRefines1'] + (['ResNoForfeit1'] if label in NO_INTERRUPT else []) + \
+                (['ResConserved1'] if 'Conservation' in inv else [])
+        check.model_check('refine_' + label, 'USimRef', 'Spec', consts, ['ResInv'], properties=props, coverage=False)
+    check.model_check('ledger_relations_equal', 'ResAbsEq', 'SpecEq', dict(M=2), [], properties=['Same'], coverage=False)
+    core.apalache_inductive(check, 'MC_ResAbs', 'ResAbs')
+
+
 def run(check):
+    refinement(check)
     from concurrent.futures import ThreadPoolExecutor
     runs = []
 
